@@ -130,13 +130,21 @@ def view_write_through(rng, res):
     seen through a row r = x[i] taken earlier.  Formats of the core domain and (the statement does not depend on the word) of 64 bits and more"""
     fx = lib.impl(); import numpy as np
     s_, nw, nf = rng.choice([(True, 12, 4), (True, 12, 4), (False, 8, 0), (True, 32, 16), (True, 63, 8), (True, 64, 8), (False, 64, 0), (True, 72, 4), (False, 96, 10), (True, 128, 64)])
-    kind = rng.choice(['chained', 'chained', 'slice', 'row_sees_parent'])
+    kind = rng.choice(['chained', 'chained', 'slice', 'row_sees_parent', 'chained_complex'])
     x = fx.Fxp(np.zeros((3, 3)), s_, nw, nf)
     i, j = rng.randrange(3), rng.randrange(3)
     c = {'i': i, 'j': j, 'f': [s_, nw, nf], 'kind': kind}
     res.count('V:view-write-through', key=repr(c), nontrivial=True)
     try:
         if kind == 'chained': x[i][j] = 3
+        elif kind == 'chained_complex':
+            # a complex value written through a view of real values: the write is not lost (x shows at least its real part; the part
+            # that cannot be stored is reported by the inaccuracy flag of the view that executed the write)
+            r = x[i]; r[j] = 3 + 1j
+            got_re = int(np.real(np.asarray(x.val)).reshape(-1).tolist()[3 * i + j])
+            if got_re != 3 * 2 ** nf or (not np.iscomplexobj(x.val) and not r.status['inaccuracy']):
+                res.fail(c, 'C20: a complex value written through a view x[i][j] = v of real values is lost silently (x unchanged, or the dropped imaginary part not reported)', expected=3 * 2 ** nf, got=(got_re, dict(r.status))); return
+            res.count('V:view-write-through', key=repr(c) + 'c', nontrivial=True); return
         elif kind == 'slice':
             a = 0 if i < 2 else 1; y = x[a:a + 2]; y[i - a, j] = 3
         else:
@@ -160,6 +168,37 @@ def deep_same(a, b):
     if isinstance(a, np.ndarray): return a.dtype == b.dtype and a.shape == b.shape and bool(np.array_equal(a, b))
     if isinstance(a, (list, tuple)): return len(a) == len(b) and all(deep_same(x, y) for x, y in zip(a, b))
     return a == b
+
+def config_targets(res):
+    """the four Fxp-valued settings of a configuration (op_out, op_out_like, array_op_out, array_op_out_like) are state too: an object derived
+    from x (a result, -x, an object built with config=x.config) has its own copies, so using or changing them never reaches x's"""
+    fx = lib.impl(); import numpy as np
+    def snap(o): return (A.fmt_of(o), lib.codes_of(o) if o.val is not None else None, lib.status3(o), o.config.overflow, o.config.rounding)
+    for opt in ('op_out', 'op_out_like', 'array_op_out', 'array_op_out_like'):
+        for route in ('neg', 'add', 'ctor_config', 'np_abs'):
+            c = {'target_option': opt, 'route': route}
+            res.count('T:config-targets', key=repr(c), nontrivial=True)
+            try:
+                t = fx.Fxp([0.5, 0.25, -1.0], True, 24, 8)
+                x = fx.Fxp([1.5, -2.25, 3.0], True, 16, 8); y = fx.Fxp([0.5, 0.25, -1.0], True, 16, 8)
+                setattr(x.config, opt, t)
+                before = snap(t)
+                if route == 'neg': z = -x
+                elif route == 'add': z = x + y if opt != 'op_out' else abs(x)       # (x + y with op_out set IS the destination: that is what op_out means)
+                elif route == 'ctor_config': z = fx.Fxp([1.0, 2.0, 3.0], True, 16, 8, config=x.config)
+                else: z = np.abs(x) if opt not in ('array_op_out',) else -x
+                zt = getattr(z.config, opt)
+                if zt is not None:
+                    # mutate the derived object's copy in every way: values (with a flag), format, modes
+                    zt.config.overflow = 'wrap'; zt.config.rounding = 'around'; zt([1e9, 1e9, 1e9]); zt.resize(True, 12, 2)
+                    # ... and let the derived object use it
+                    if opt in ('op_out', 'op_out_like'): _ = z - y
+                    else: _ = np.sqrt(abs(z))
+                after = snap(t)
+            except Exception as e:
+                res.fail(c, 'C20: deriving an object from one whose configuration holds an Fxp-valued setting raised %s' % lib.exc_name(e), got=str(e)[:200]); continue
+            if zt is t or after != before:
+                res.fail(c, 'C20: the Fxp-valued setting %s of a derived object is shared with its source: using / changing it changed the source\'s' % opt, expected=before, got=(zt is t, after))
 
 def inputs_unchanged(rng, res):
     fx = lib.impl(); import numpy as np
@@ -229,7 +268,7 @@ def shard(shard, nshards, rng, tier, extra):
         run_history(random.Random(hseed), res, hseed)
     for _ in range(12 if tier == 'quick' else 200): view_write_through(rng, res)
     if shard == 0:
-        inputs_unchanged(rng, res); clip_bounds_unchanged(res); invalid_config(rng, res)
+        inputs_unchanged(rng, res); clip_bounds_unchanged(res); invalid_config(rng, res); config_targets(res)
     return res
 
 def run(seed, tier):
@@ -244,4 +283,5 @@ def replay(payload):
     elif 'container' in c: inputs_unchanged(None, res)
     elif 'clip' in c: clip_bounds_unchanged(res)
     elif 'key' in c: invalid_config(None, res)
+    elif 'target_option' in c: config_targets(res)
     return {'holds': not res.failures, 'failures': res.failures}
